@@ -75,9 +75,15 @@ def handle (j : Json) : R Json := do
     let s ← intF j "s"; let e ← intF j "e"
     let guard := decide (0 ≤ s) && decide (s < e) && decide (e ≤ l.len / 3)
     let sl := sliceL (bases l) (3 * s).toNat (3 * e).toNat
+    -- scope of the convert_* theorems: simple, or compound in the standard exon order of its strand
+    let standard := !l.isCompound || (if isRev l then descDisjointB l.parts else ascDisjointB l.parts)
+    let first := sl.head?.getD 0
+    let last := sl.getLast?.getD 0
+    let expected : List Int := if isRev l then [last, first + 1] else [first, last + 1]
     return jObj (common ++ [
       ("model", resJson (fun (p : Int × Int) => jInts [p.1, p.2]) (convertProteinToDna s e l)),
-      ("spec", jObj [("guard", toJson guard), ("simple", toJson (!l.isCompound)),
+      ("spec", jObj [("guard", toJson guard), ("simple", toJson (!l.isCompound)), ("standard", toJson standard),
+                     ("expected", jInts expected),
                      ("minmax", jInts [minList sl, maxList sl + 1])])])
   | "frameshift" =>
     let cs ← intF j "cs"; let undo ← boolF j "undo"
